@@ -3,7 +3,6 @@ result back.  Every simulated run starts from the forking process' state, so
 runs never contaminate one another and a replay starts from the same state as
 the original run."""
 
-import faulthandler
 import json
 import os
 import select
@@ -40,10 +39,10 @@ def fork_call(fn, args=(), timeout=60.0):
         code = 0
         try:
             os.close(r)
-            try:
-                faulthandler.dump_traceback_later(max(1.0, timeout - 0.5), exit=True)
-            except Exception:
-                pass
+            # fork-safe watchdog (faulthandler's watchdog thread deadlocks when
+            # re-armed in a forked grandchild): SIGALRM's default action kills us
+            signal.signal(signal.SIGALRM, signal.SIG_DFL)
+            signal.setitimer(signal.ITIMER_REAL, timeout + 1.0)
             try:
                 res = fn(*args)
                 data = json.dumps({"status": "ok", "res": res})
